@@ -58,3 +58,14 @@ Example C09_refresh_old_refuted :
   option_map vid (it_get s (it_refresh_old bytes_cmp s it)) = Some 1 /\
   option_map vid (it_get s (it_refresh bytes_cmp s it)) = Some 3.
 Proof. exact refresh_old_refuted. Qed.
+
+(** ON A MOVING STORE: any script of SeekFirst / Seek x / Next / Refresh / SetRefreshRate of a long-lived
+    iterator of an open snapshot, with ANY operations of other goroutines between its operations
+    (Puts, Deletes, new snapshots, closing of others, GC passes and collection that physically removes
+    versions), observes exactly what the same script observes on the fixed sorted list of the items the
+    snapshot held when the iterator was created: Seek lands on the first item >= x of THAT list, Next
+    on the next one, Refresh does not move, the refresh rate is invisible. *)
+From NV Require Import Mvcc.Live Mvcc.LiveScriptStmts Mvcc.LiveScriptProofs.
+Theorem C09_live_script : forall kcmp, cmp_laws kcmp -> stmt_live_script kcmp.
+Proof. exact live_script_exact. Qed.
+Print Assumptions C09_live_script.
